@@ -39,6 +39,12 @@ const (
 var htmlElements = map[string]bool{}
 
 var boolAttrs = map[string]bool{}
+var globalAttrs = map[string]bool{}
+
+func isEventName(name string) bool {
+	return len(name) > 2 && name[0] == 'o' && name[1] == 'n' && !strings.ContainsAny(name, "-:")
+}
+
 var byName = map[string]akind{}
 
 func init() {
@@ -49,6 +55,9 @@ func init() {
 	for _, n := range strings.Fields("allowfullscreen async autofocus autoplay checked controls default defer disabled formnovalidate inert ismap itemscope loop multiple muted nomodule novalidate open playsinline readonly required reversed selected shadowrootclonable shadowrootdelegatesfocus shadowrootserializable compact declare noresize nohref noshade nowrap truespeed typemustmatch") {
 		boolAttrs[n] = true
 	}
+	for _, n := range strings.Fields("accesskey autocapitalize autofocus class contenteditable dir draggable enterkeyhint hidden id inert inputmode is itemid itemprop itemref itemscope itemtype lang nonce popover slot spellcheck style tabindex title translate") {
+		globalAttrs[n] = true
+	}
 	set := func(k akind, names string) {
 		for _, n := range strings.Fields(names) {
 			byName[n] = k
@@ -57,7 +66,7 @@ func init() {
 	set(aTokens, "class rel headers sandbox itemprop itemref itemtype accesskey ping blocking aria-labelledby aria-describedby dropzone")
 	set(aTokensCI, "autocomplete accept-charset")
 	set(aURL, "href src action cite data formaction poster manifest itemid background longdesc profile codebase icon xmlns")
-	set(aInt, "cols rows size maxlength minlength start tabindex")
+	set(aInt, "cols rows maxlength minlength start tabindex")
 	set(aDim, "width height")
 	set(aStrip, "min max step high low optimum")
 	set(aCollapse, "srcset imagesrcset imagesizes media coords allow")
@@ -68,12 +77,16 @@ func init() {
 
 func kindOf(el, name string) akind {
 	if !htmlElements[el] {
-		return aExact
+		// Unknown and autonomous custom elements: only the global attributes have a
+		// meaning given by the standard; everything else is the author's.
+		if !globalAttrs[name] && !isEventName(name) {
+			return aExact
+		}
 	}
 	if boolAttrs[name] {
 		return aBool
 	}
-	if len(name) > 2 && name[0] == 'o' && name[1] == 'n' && !strings.ContainsAny(name, "-:") {
+	if isEventName(name) {
 		return aEvent
 	}
 	switch name {
@@ -97,6 +110,11 @@ func kindOf(el, name string) akind {
 		return aCollapse // source size list of img/source
 	case "value":
 		return aExact
+	case "size":
+		if el == "input" || el == "select" {
+			return aInt
+		}
+		return aExact // font/basefont/hr size have other (relative, pixel) syntaxes
 	case "span", "colspan", "rowspan":
 		return aInt
 	}
@@ -362,7 +380,7 @@ func scriptType(attrs map[string]string) string {
 	case ls == "module" || ls == "importmap" || ls == "speculationrules":
 		return ls
 	}
-	return "data:" + s
+	return "data:" + canonMIME(s)
 }
 
 // metaCharset: the character encoding declaration a meta element makes ("" if none):
@@ -372,7 +390,7 @@ func metaCharset(attrs map[string]string) string {
 	if v, ok := attrs["charset"]; ok {
 		return lowerASCII(stripASCII(v))
 	}
-	if lowerASCII(stripASCII(attrs["http-equiv"])) != "content-type" {
+	if lowerASCII(attrs["http-equiv"]) != "content-type" {
 		return ""
 	}
 	s := attrs["content"]
@@ -518,7 +536,8 @@ func attrMap(n *html.Node) map[string]string {
 			k = a.Namespace + ":" + k
 		}
 		if _, dup := m[k]; !dup { // the tokenizer keeps the first of duplicate attributes
-			m[k] = a.Val
+			// §13.2.5.36-38: U+0000 in an attribute value becomes U+FFFD (x/net keeps it).
+			m[k] = strings.ReplaceAll(a.Val, "\x00", "\uFFFD")
 		}
 	}
 	return m
@@ -527,7 +546,7 @@ func attrMap(n *html.Node) map[string]string {
 // Canonical returns the canonical attribute map of an element.
 func Canonical(n *html.Node) map[string]string {
 	raw := attrMap(n)
-	if n.Namespace != "" || !htmlElements[n.Data] {
+	if n.Namespace != "" {
 		return raw
 	}
 	el := n.Data
@@ -580,7 +599,7 @@ func Canonical(n *html.Node) map[string]string {
 	// id (DOM: the element has no ID), name (no name: form entry list, named access and
 	// navigable target names all skip the empty string), dir (no state).
 	for _, name := range []string{"class", "id", "name", "dir"} {
-		if v, ok := out[name]; ok && v == "" {
+		if v, ok := out[name]; ok && v == "" && (name != "name" || htmlElements[el]) {
 			delete(out, name)
 		}
 	}
